@@ -76,6 +76,10 @@ def evaluate(case):
             labels.append('prov:' + step)
             nontriv_flags.add(step)
             if step == 'filter':
+                if case.get('warm_cache'):
+                    # cache partition bounds / index on the parent first: the filtered frame must not reuse them
+                    lib(B + ['partition_sindex'], lambda: ddf.partition_sindex)
+                    labels.append('filter-after-cached-bounds')
                 ddf = lib(B + ['filter'], lambda: ddf[ddf['v'] != 0])
                 ref = ref[ref['v'] != 0]
             elif step == 'set_geometry':
@@ -258,7 +262,7 @@ def _case(draw):
     return {'points': pts, 'shapes': shapes, 'kind2': kind2, 'subtype2': draw(st.sampled_from(['float64', 'float32', 'int32'])),
             'index': draw(st.sampled_from(['default', 'labels', 'nonunique'])),
             'col_order': draw(st.sampled_from([['pts', 'shp'], ['shp', 'pts']])), 'active': draw(st.sampled_from(['pts', 'pts', 'shp'])),
-            'sizes': sizes, 'provenance': chain, 'box': box, 'pack_n': draw(st.integers(1, 4)), 'p': draw(st.integers(2, 12)),
+            'sizes': sizes, 'provenance': chain, 'warm_cache': draw(st.booleans()), 'box': box, 'pack_n': draw(st.integers(1, 4)), 'p': draw(st.integers(2, 12)),
             'ops': draw(st.lists(st.sampled_from(OPS), min_size=2, max_size=5, unique=True)),
             'right_polys': [[[0, 0, 6, 0, 6, 6, 0, 6, 0, 0]], [[4, 4, 13, 4, 13, 13, 4, 13, 4, 4]], [[30, 30, 31, 30, 31, 31, 30, 30]]]}
 
